@@ -499,7 +499,19 @@ func c04FlagRetention(p *Prog, o *Ownership, r *Report) {
 		fill := reachableUnder(fn, setCall, mk(false, true, false))
 		r.Check("R4b", base+"|restores-flag", restore, p.InstrPos(setCall), "remote write, field is the writecheck field, update carries a value: the existing value is set")
 		r.Check("R4b", base+"|keeps-other-fields", keepOther && keepLocal, p.InstrPos(setCall), "a field the update carries a value for is not overwritten unless it is the writecheck field of a remote write")
-		r.Check("R4b", base+"|fills-missing", fill, p.InstrPos(setCall), "a field the update does not mention is filled from the existing item")
+		// … and on every path: a settable field that is nil in the update is filled whatever its kind (pointer, slice, map)
+		esc := mustPassInIteration(setCall, func(c ssa.Value) (bool, bool) {
+			if x, ok := c.(*ssa.Call); ok {
+				if callee := x.Call.StaticCallee(); callee != nil && fnPkgPath(callee) == "reflect" {
+					switch callee.Name() {
+					case "IsValid", "CanSet", "IsNil":
+						return true, true
+					}
+				}
+			}
+			return false, false
+		})
+		r.Check("R4b", base+"|fills-missing", fill && esc == "", p.InstrPos(setCall), "a field the update does not mention (valid, settable, nil) is filled from the existing item on every path of the iteration, whatever its kind; "+esc)
 	}
 	r.Floor("R4b", "tag-aware mutators", n, 1)
 }
@@ -531,4 +543,71 @@ func engineFailureRule(p *Prog, r *Report, rule string) {
 		}
 	}
 	r.Floor(rule, "engine bodies examined", n, 1)
+}
+
+// mustPassInIteration: from the first block of the loop body around target, with
+// the branch conditions eval knows fixed and all others explored both ways, every
+// path that comes back to the loop header (or leaves the loop) runs through
+// target's block. Returns a description of an escaping path, "" if none.
+func mustPassInIteration(target ssa.Instruction, eval func(cond ssa.Value) (known, val bool)) string {
+	b := target.Block()
+	var header *ssa.BasicBlock
+	for d := b; d != nil; d = d.Idom() {
+		for _, pr := range d.Preds {
+			if d.Dominates(pr) && blockReachesOrSame(b, pr) {
+				header = d
+			}
+		}
+		if header != nil {
+			break
+		}
+	}
+	if header == nil {
+		return "no loop around the mutator call"
+	}
+	inLoop := func(x *ssa.BasicBlock) bool { return header.Dominates(x) && (x == header || blockReaches(x, header)) }
+	var start *ssa.BasicBlock
+	for _, s := range header.Succs {
+		if inLoop(s) && s != header {
+			start = s
+		}
+	}
+	if start == nil {
+		return "loop body not found"
+	}
+	escape := ""
+	seen := map[*ssa.BasicBlock]bool{}
+	var walk func(x *ssa.BasicBlock, steps int)
+	walk = func(x *ssa.BasicBlock, steps int) {
+		if escape != "" || steps > 200 {
+			return
+		}
+		if x == b {
+			return // reached the call
+		}
+		if x == header || !inLoop(x) {
+			escape = fmt.Sprintf("a path of the iteration reaches block %d (%s) without the call", x.Index, x.Comment)
+			return
+		}
+		if seen[x] {
+			return
+		}
+		seen[x] = true
+		if ifi, ok := x.Instrs[len(x.Instrs)-1].(*ssa.If); ok {
+			c, pol := normCond(ifi.Cond, true)
+			if known, val := eval(c); known {
+				if val == pol {
+					walk(x.Succs[0], steps+1)
+				} else {
+					walk(x.Succs[1], steps+1)
+				}
+				return
+			}
+		}
+		for _, s := range x.Succs {
+			walk(s, steps+1)
+		}
+	}
+	walk(start, 0)
+	return escape
 }
